@@ -43,13 +43,13 @@ def save_meta(name, meta):
 
 
 def cmd_import(args):
-    src = os.path.join("/tmp/seed2" if args.round == 2 else "/tmp/seed", args.prop)
+    src = os.path.join({1: "/tmp/seed", 2: "/tmp/seed2", 3: "/tmp/seed3"}[args.round], args.prop)
     for letter in "ab":
         patch = os.path.join(src, "patch_%s.diff" % letter)
         demo = os.path.join(src, "demo_%s.py" % letter)
         if not (os.path.exists(patch) and os.path.exists(demo)):
             continue
-        name = "%s%s" % (args.prop, {"a": "c", "b": "d"}[letter] if args.round == 2 else letter)
+        name = "%s%s" % (args.prop, {1: {"a": "a", "b": "b"}, 2: {"a": "c", "b": "d"}, 3: {"a": "e", "b": "f"}}[args.round][letter])
         d = os.path.join(SEEDED, name)
         os.makedirs(d, exist_ok=True)
         shutil.copy(patch, os.path.join(d, "patch.diff"))
